@@ -15,11 +15,6 @@ def trim_stable(x):
     return not any(x.startswith(q) or x.endswith(q) for q in WS_SEQS)
 
 
-def dashes_only(cells):
-    """the markdown reader takes `| - |  |` for a header-separator line"""
-    return all(set(x) <= set(b"- ") for x in cells)
-
-
 def md_escape(v):
     return v.replace(b"|", b"\\|")
 
@@ -179,13 +174,15 @@ def gen_write_case(ctx, fmt):
         args += ["--ors", "crlf"] if crlf else []
         c["flags"] = [aligned, crlf]; c["seps"] = []
         in_dom = rng.random() < 0.85
-        alpha = (alpha_without(b"|\n") if in_dom else ALPHA_WEIGHTED) + [b" ", b"\xc2\xa0", b"\xe2\x80\x83", b"-", b"--"] * 2
+        extra = [b" ", b"\xc2\xa0", b"\xe2\x80\x83", b"-", b"--"] * 2
+        alpha = (alpha_without(b"|\n") if in_dom else ALPHA_WEIGHTED) + extra
+        valpha = (alpha_without(b"\n") if in_dom else ALPHA_WEIGHTED) + extra + [b"|", b"\\|", b"\\", b":"] * 2    # "|" in a value is written "\|"
         recs, keys = [], None
         for i in range(nrec):
             if keys is None or rng.random() < 0.35:
                 n = gen_nfields(rng, big and i < 2) if rng.random() > 0.05 else 0
                 keys = gen_keys(rng, n, alpha)
-            recs.append([(k, gen_cell(rng, alpha, empty_p=0.12)) for k in keys])
+            recs.append([(k, gen_cell(rng, valpha, empty_p=0.12)) for k in keys])
         c["args"], c["recs"] = args, recs
     elif fmt == "xtab":
         right = rng.random() < 0.2
@@ -284,11 +281,13 @@ def in_domain(c):
             vs = [v for _, v in r]
             if not r or len(set(ks)) != len(ks) or any(44 in k for k in ks):
                 return False
-            if any(set(x) & {10, 124} or not trim_stable(x) for x in ks + vs):
+            if any(set(x) & {10} or not trim_stable(x) for x in ks + vs) or any(124 in k for k in ks):
                 return False
+            if fmt != "markdown" and any(124 in v for v in vs):
+                return False    # barred PPRINT has no escape for "|"; the markdown writer writes it as "\|" (values only)
+            if fmt == "markdown" and ks == [b""]:
+                return False    # the joined keys "" mean "no header written yet": every such record gets its own header
             if headerless and ks != [b"%d" % (q + 1) for q in range(len(r))]:
-                return False
-            if fmt == "markdown" and (dashes_only(ks) or dashes_only(vs)):
                 return False
         return True
     if fmt in ("csvlite", "pprint"):
@@ -618,7 +617,8 @@ def gen_extra_read_cases(ctx, n):
         ctx.dist("read-extra:" + kind)
         if kind in ("barred-hand", "md-hand"):
             md = kind == "md-hand"
-            alpha = [p for p in ALPHA_WEIGHTED if b"\n" not in p and b"\r" not in p] + [b" ", b"  ", b"-", b"\xc2\xa0", b"\xe2\x80\x83"] * 4 + [b"|", b"+"] * 3
+            alpha = [p for p in ALPHA_WEIGHTED if b"\n" not in p and b"\r" not in p] + [b" ", b"  ", b"-", b"\xc2\xa0", b"\xe2\x80\x83"] * 4 + [b"|", b"+"] * 3 \
+                + ([b"\\|", b"\\", b"\\\\|", b"|"] * 3 if md else [])
             ncol = rng.randint(1, 5)
             lines = []
             for _ in range(rng.randint(1, 8)):
@@ -628,7 +628,7 @@ def gen_extra_read_cases(ctx, n):
                     cells = [b"".join(rng.choice(alpha) for _ in range(rng.randint(0, 4))) for _ in range(n)]
                     lines.append(b"|" + b"".join(b" " * rng.randint(0, 2) + x + b" " * rng.randint(0, 3) + b"|" for x in cells))
                 elif r < 0.75:
-                    lines.append((b"| " + b" | ".join(rng.choice([b"---", b"-", b"--:", b":--", b""]) for _ in range(n)) + b" |") if md
+                    lines.append((b"| " + b" | ".join(rng.choice([b"---", b"---", b"-", b"--:", b":--", b"---:", b":-:", b"", b"x"]) for _ in range(n)) + b" |") if md
                                  else (b"+-" + b"-+-".join(b"-" * rng.randint(0, 4) for _ in range(n)) + b"-+"))
                 elif r < 0.85:
                     lines.append(b"")
@@ -1012,13 +1012,15 @@ WITNESSES = [
     ("tsv-single-column-empty-cell", ["--otsv"], ["--itsv"], [[(b"a", b"")]]),
     ("csv-reader-crlf-in-quoted-field-to-lf", ["--ocsv"], ["--icsv"], [[(b"a", b"x\r\ny")]]),
     ("csv-ors-crlf-writer-drops-cr", ["--ocsv", "--ors", "crlf"], ["--icsv"], [[(b"a", b"x\ry")]]),
-    ("markdown-escaped-bar-not-unescaped", ["--omd"], ["--imd"], [[(b"a", b"x|y"), (b"b", b"2")]]),
-    ("markdown-dash-only-row-dropped", ["--omd"], ["--imd"], [[(b"a", b"-"), (b"b", b"")]]),
+    ("regression-of-80287c7ad-markdown-escaped-bar-not-unescaped", ["--omd"], ["--imd"], [[(b"a", b"x|y"), (b"b", b"2\\|"), (b"c", b"|")]]),
+    ("regression-of-75f65c604-markdown-dash-only-row-dropped", ["--omd"], ["--imd"], [[(b"a", b"-"), (b"b", b"")], [(b"a", b"---"), (b"b", b"--")]]),
+    ("regression-of-75f65c604-markdown-aligned-dash-only-row-dropped", ["--omd-aligned"], ["--imd"], [[(b"a", b"-"), (b"b", b"")]]),
     # representational limits of PPRINT (theorems C01_pprint_*_refuted): must stay as modelled
 ]
 # reader-only regression probes of repaired defects: (name, read args, text, expected records)
 READ_PROBES = [
     ("regression-of-ff74c4ac8-barred-implicit-header-panic", ["--ipprint", "--barred-input", "--implicit-csv-header"], b"abc\n| x | y |\n", [[(b"1", b"x"), (b"2", b"y")]]),
+    ("regression-of-6be21e050-markdown-alignment-colons", ["--imd"], b"| a | b |\n| ---: | :--- |\n| 1 | x |\n", [[(b"a", b"1"), (b"b", b"x")]]),
     ("regression-of-a96f6ff95-multi-char-irs-drops-chunk", ["--idkvp", "--irs", "usv_rs"], b"a=x\xc3\x9ey\xe2\x90\x9eb=2\xe2\x90\x9e", [[(b"a", b"x\xc3\x9ey")], [(b"b", b"2")]]),
 ]
 
